@@ -1318,7 +1318,7 @@ def witnesses():
 def main(tier, seed):
     t0 = time.time()
     proof = framework.proof_stage(PID, MODULE, THEOREMS, tier)
-    nshards, per, nsolver = (16, 1000, 24) if tier == "quick" else (64, 1500, 60)
+    nshards, per, nsolver = (16, 1000, 24) if tier == "quick" else (64, 6000, 150)
     run = framework.run_shards("c11", "run_shard", PID, seed, nshards, per, tier, extra={"nsolver": nsolver})
     run["findings"] = witnesses() + run["findings"]
 
